@@ -36,9 +36,9 @@ import (
 	evyparser "evylang.dev/evy/pkg/parser"
 )
 
-// repoRoot finds the directory of the evy module the harness was built
+// c08repoRoot finds the directory of the evy module the harness was built
 // against (follows the `replace` directive of harness/go.mod).
-func repoRoot() string {
+func c08repoRoot() string {
 	if p := os.Getenv("VERIF_REPO"); p != "" {
 		return p
 	}
@@ -378,15 +378,15 @@ func enumerateSites(root string) ([]mapSite, error) {
 	return sites, nil
 }
 
-func coqStr(s string) string { return `"` + strings.ReplaceAll(s, `"`, `""`) + `"` }
+func c08coqStr(s string) string { return `"` + strings.ReplaceAll(s, `"`, `""`) + `"` }
 
 func genMapSites(dir string) error {
-	sites, err := enumerateSites(repoRoot())
+	sites, err := enumerateSites(c08repoRoot())
 	if err != nil {
 		return err
 	}
 	if len(sites) == 0 {
-		return fmt.Errorf("no sites found (wrong repo root %q?)", repoRoot())
+		return fmt.Errorf("no sites found (wrong repo root %q?)", c08repoRoot())
 	}
 	var b strings.Builder
 	b.WriteString("(* GENERATED by `vharness gen` (harness/gen_mapsites.go) from the Go source of evylang/evy — do not edit.\n")
@@ -406,7 +406,7 @@ func genMapSites(dir string) error {
 			b.WriteString(";\n")
 		}
 		first = false
-		fmt.Fprintf(&b, "  (%s, %s, %v)  (* %s: %s *)", coqStr(s.ID), coqStr(s.Expr), s.KeyOnly, s.File, s.Typ)
+		fmt.Fprintf(&b, "  (%s, %s, %v)  (* %s: %s *)", c08coqStr(s.ID), c08coqStr(s.Expr), s.KeyOnly, s.File, s.Typ)
 	}
 	b.WriteString("\n].\n\n")
 	b.WriteString("(* (id, what) : clock / global PRNG / scheduling / pointer formatting *)\n")
@@ -420,7 +420,7 @@ func genMapSites(dir string) error {
 			b.WriteString(";\n")
 		}
 		first = false
-		fmt.Fprintf(&b, "  (%s, %s)  (* %s *)", coqStr(s.ID), coqStr(s.Expr), s.File)
+		fmt.Fprintf(&b, "  (%s, %s)  (* %s *)", c08coqStr(s.ID), c08coqStr(s.Expr), s.File)
 	}
 	b.WriteString("\n].\n\n")
 	// parseProgram / NewEvaluator copy builtins.Globals into the scope under the
@@ -438,7 +438,7 @@ func genMapSites(dir string) error {
 		if i > 0 {
 			b.WriteString(";\n")
 		}
-		fmt.Fprintf(&b, "  (%s, %s)", coqStr(k), coqStr(gl[k].Name))
+		fmt.Fprintf(&b, "  (%s, %s)", c08coqStr(k), c08coqStr(gl[k].Name))
 	}
 	b.WriteString("\n].\n")
 	return os.WriteFile(filepath.Join(dir, "MapSites.v"), []byte(b.String()), 0o644)
